@@ -325,11 +325,17 @@ def cuts_shard(rec, t0):
     rec.samples.append({'data': data, 'ops': [['feed', 2, 'bytes'], ['iter_all'], ['feed', 3, 'bytes'], ['iter_all']]})
 
 
-def main(ctx):
+def machine_shard(rec, shard):
     global _CTX
-    _CTX = ctx
+    _CTX = rec
+    target, k, n, steps = shard
+    rec.machine(make_machine(target), n, steps, label=f'{target}-machine', seed_offset=k)
+
+
+def main(ctx):
     ctx.pmap('cuts_shard', list(R.ALL_TYPES))
-    n = 300 if ctx.tier == 'quick' else 8000
+    n = 1200 if ctx.tier == 'quick' else 32000
     steps = 30 if ctx.tier == 'quick' else 50
-    ctx.machine(make_machine('parser'), n, steps, label='parser-machine')
-    ctx.machine(make_machine('queue'), n // 3, steps, label='queue-machine', seed_offset=1)
+    w = 6 if ctx.tier == 'quick' else 12
+    ctx.pmap('machine_shard', [('parser', k, n // w, steps) for k in range(w)] +
+             [('queue', 100 + k, n // (3 * w), steps) for k in range(w // 2)])
